@@ -41,6 +41,18 @@ def rule_literal_text_opaque(run, prog, rid="R-17.8"):
                             ref = (raw, sig)
                         elif sig != ref[1] and bad is None:
                             bad = (ref[0], ref[1], raw, sig)
+            ref = None
+            for body in itertools.product(["a", "A", "1", "+"], repeat=4):       # tag-like four-character texts
+                raw = q + "".join(body) + q
+                n += 1
+                sim = LexerSim(prog, raw + ";\n")
+                out = sim.call(name)
+                sig = (out.kind, getattr(out.value, "type", None) if out.kind == "ok" else out.exc, sim.line, sim.line_pos, sim.pos,
+                       [(e.name, e.level, [(h.lineno, h.column, h.length, h.hint) for h in e.highlights]) for e in sim.errors.items])
+                if ref is None:
+                    ref = (raw, sig)
+                elif sig != ref[1] and bad is None:
+                    bad = (ref[0], ref[1], raw, sig)
         except Unsupported as e:
             raise Undecided(f"Lexer.{name} is outside the evaluable subset: {e}")
         msg = ""
